@@ -263,6 +263,13 @@ Lemma Inv_do_bcast s : Inv s -> Inv (do_bcast s). Proof. intros H. apply (Inv_ex
 Lemma InvR_wait s r : Inv s -> routine s = Some r -> forall j, rexit (getr s r) = Some j -> S j = length (insts s).
 Proof. intros [_ [_ [HR _]]] Hc j Hj. eapply HR; eauto. Qed.
 
+(* forgetting a root context cancelled by its owner *)
+Lemma Inv_norm s : Inv s -> Inv (norm s).
+Proof. intros H. unfold norm. destruct (root_dead s (kctx s)); [apply (Inv_ext s); auto | exact H]. Qed.
+Lemma insts_norm s : insts (norm s) = insts s. Proof. unfold norm. destruct (root_dead s (kctx s)); reflexivity. Qed.
+Lemma routine_norm s : routine (norm s) = routine s. Proof. unfold norm. destruct (root_dead s (kctx s)); reflexivity. Qed.
+Lemma recs_norm s : recs (norm s) = recs s. Proof. unfold norm. destruct (root_dead s (kctx s)); reflexivity. Qed.
+
 (* ---- API sections ---- *)
 Lemma set_context_inv s c restart : Inv s -> Inv (fst (set_context repaired s c restart)).
 Proof.
@@ -296,9 +303,9 @@ Proof.
   split; [exact HI|]. split; [exact HL|]. split; [intros r j Hq; discriminate | exact I].
 Qed.
 
-Lemma set_routine_locked_inv s f arg : Inv s -> Inv (fst (set_routine_locked repaired s f arg)).
+Lemma set_routine_locked_n_inv s f arg : Inv s -> Inv (fst (set_routine_locked_n repaired s f arg)).
 Proof.
-  intros H. unfold set_routine_locked.
+  intros H. unfold set_routine_locked_n.
   (* phase 1: detach the previous record *)
   set (ph := match routine s with
              | Some p => _
@@ -327,9 +334,12 @@ Proof.
   - cbn [fst]. destruct wasReset; [apply Inv_do_bcast|]; exact H1.
 Qed.
 
-Lemma restart_routine_inv s : Inv s -> Inv (fst (restart_routine repaired s)).
+Lemma set_routine_locked_inv s f arg : Inv s -> Inv (fst (set_routine_locked repaired s f arg)).
+Proof. intros H. unfold set_routine_locked. now apply set_routine_locked_n_inv, Inv_norm. Qed.
+
+Lemma restart_routine_n_inv s : Inv s -> Inv (fst (restart_routine_n repaired s)).
 Proof.
-  intros H. unfold restart_routine. destruct (routine s) as [r|] eqn:Er; [|exact H].
+  intros H. unfold restart_routine_n. destruct (routine s) as [r|] eqn:Er; [|exact H].
   set (x := getr s r).
   set (s1 := cancel_inst s (rcancel x)).
   assert (H1 : Inv s1) by (apply Inv_cancel_inst, H).
@@ -350,6 +360,9 @@ Proof.
     unfold y, s2 in Hj. rewrite getr_setr_same in Hj by exact Hrl. cbn [rexit] in Hj.
     eapply InvR_wait; eauto.
 Qed.
+
+Lemma restart_routine_inv s : Inv s -> Inv (fst (restart_routine repaired s)).
+Proof. intros H. unfold restart_routine. now apply restart_routine_n_inv, Inv_norm. Qed.
 
 Lemma update_sr_inv s : Inv s -> Inv (fst (update_sr repaired s)).
 Proof.
@@ -508,11 +521,34 @@ Qed.
 Lemma Inv_set_waiters s x : Inv s -> Inv (set_waiters s x). Proof. intros H. apply (Inv_ext s); auto. Qed.
 Lemma Inv_set_b s x : Inv s -> Inv (set_b s x). Proof. intros H. apply (Inv_ext s); auto. Qed.
 
+Lemma wait_sect_at_inv s a w : Inv s -> Inv (wait_sect_at s a w).
+Proof.
+  intros H. unfold wait_sect_at. destruct (getch (b s)) as [b' ch].
+  destruct (match routine s with Some r => _ | None => _ end); [|destruct (wcanc w)]; unfold setw; now apply Inv_set_waiters, Inv_set_b.
+Qed.
+
 Lemma wait_section_inv s a : Inv s -> Inv (wait_section s a).
 Proof.
   intros H. unfold wait_section. destruct (nth_error (waiters s) a) as [w|]; [|exact H].
-  destruct (wpcv w); try exact H. destruct (getch (b s)) as [b' ch].
-  destruct (match routine s with Some r => _ | None => _ end); [|destruct (wcanc w)]; unfold setw; now apply Inv_set_waiters, Inv_set_b.
+  destruct (wpcv w); try exact H. now apply wait_sect_at_inv, Inv_norm.
+Qed.
+
+(* the owner cancels a root context: instances keep their shape *)
+Lemma InvI_map_same_shape l (f : inst -> inst) :
+  (forall x, iwait (f x) = iwait x /\ ipcv (f x) = ipcv x /\ iexit (f x) = iexit x) -> InvI l -> InvI (map f l).
+Proof.
+  intros Hf HI i y Hy. rewrite nth_error_map in Hy. destruct (nth_error l i) as [x|] eqn:Ex; [|discriminate]. inversion Hy; subst y.
+  destruct (Hf x) as (A & B & C). destruct (HI i x Ex) as (H1 & H2 & H3).
+  assert (Ho : forall z, over (f z) = over z) by (intros z; unfold over; now rewrite (proj1 (proj2 (Hf z)))).
+  assert (Hu : forall z, in_user (f z) = in_user z) by (intros z; unfold in_user; now rewrite (proj1 (proj2 (Hf z)))).
+  split; [congruence|]. split; [rewrite C, Ho; exact H2|]. rewrite Ho, Hu. intros Hc j z Hj Hz.
+  rewrite nth_error_map in Hz. destruct (nth_error l j) as [z0|] eqn:Ez; [|discriminate]. inversion Hz; subst z. rewrite Ho. eapply H3; eauto.
+Qed.
+
+Lemma cancel_root_inv s c : Inv s -> Inv (cancel_root s c).
+Proof.
+  intros (HI & HL & HR & HW). unfold cancel_root, Inv, InvL, InvR, InvW, getr in *. cbn [insts lastexit routine recs set_insts set_dead].
+  rewrite map_length. split; [|auto]. apply InvI_map_same_shape; [|exact HI]. intros x. destruct (Nat.eqb (iroot x) c); auto.
 Qed.
 
 Lemma step_inv s e : Inv s -> Inv (step repaired s e).
@@ -538,6 +574,7 @@ Proof.
     destruct (wpcv w); try exact H; unfold setw; now apply Inv_set_waiters.
   - unfold wait_errch. destruct (nth_error (waiters s) a) as [w|]; [|exact H].
     destruct (wpcv w); try exact H; unfold setw; now apply Inv_set_waiters.
+  - now apply cancel_root_inv.
 Qed.
 
 Lemma init_inv v c n sc : Inv (init v c n sc).
@@ -569,8 +606,9 @@ Theorem wait_return_is_newest v c n sc es f arg j :
   let s := run repaired (init v c n sc) es in
   fst (snd (set_routine_locked repaired s f arg)) = Some j -> S j = length (insts s).
 Proof.
-  intros s Hj. pose proof (run_inv v c n sc es) as H. fold s in H.
-  unfold set_routine_locked in Hj. destruct (routine s) as [p|] eqn:Ep.
+  intros s Hj. pose proof (Inv_norm _ (run_inv v c n sc es)) as H. fold s in H.
+  unfold set_routine_locked, set_routine_locked_n in Hj. rewrite <- (insts_norm s).
+  destruct (routine (norm s)) as [p|] eqn:Ep.
   - destruct (negb (Nat.eqb f 0)); cbn [fst snd] in Hj; eapply InvR_wait; eauto.
   - destruct (negb (Nat.eqb f 0)); cbn [fst snd] in Hj; discriminate.
 Qed.
